@@ -145,6 +145,9 @@ func (h *cronHarness) deliverAll() int {
 func (h *cronHarness) tick(budget int) (got []cronReq, first time.Time, ok bool) {
 	h.rec.got = nil
 	h.clk.Reads = 0
+	if budget <= 0 {
+		budget = 500000 // a frozen clock is read a few times per request: far beyond this means Work() does not return
+	}
 	h.clk.Budget = budget
 	first = h.clk.T
 	ok = true
